@@ -235,34 +235,32 @@ def r1_roles(ctx):
                     ok = lv[0] == "idx" and lv[2] == ("elem", J) and content_root(lv[1]) == ("s", want_src)
                     A.req(f"extrema [{arm}]: the label for the {rname} update is the incoming "
                           f"{'maxcase' if (role == 0 or ncol == 1) else 'mincase (maxcase when mincase is None)'} label of the same row", ok, x.node, show(lv))
-                # abscissa: the first ext_x action after the value store and before the next group's value store
-                nxt = groups[gi + 1].seq if gi + 1 < len(groups) else 10 ** 9
-                xa = [(x, tg) for x, tg in evs if e.seq < x.seq < nxt and
-                      ((x.kind == "setattr" and tg == CUR and x.name == "ext_x") or
-                       (x.kind == "store" and (tg == EXTX or (tg[0] == "new" and content_root(tg) == MEXTX))))]
+                # abscissa: the store into the abscissa table at the same rows (matched by the row selector, not by statement order); when
+                # the running table has no abscissae yet the whole incoming table is taken over (a fresh copy)
                 key = f"extrema [{arm}]: the abscissa of the {rname} is moved with it (column {want_b} of mm.ext_x into column {role} of curext.ext_x at the same rows)"
                 cur_x = fact_of(P, op("is", EXTX, NONE))
-                had_set = any(x.kind == "setattr" and tg == CUR and x.name == "ext_x" and x.seq < e.seq for x, tg in evs)
-                if not xa:
-                    need = (nox is False) or (nox is True and cur_x is False and not had_set)
-                    A.req(key, not need, e.node, "no update of curext.ext_x follows the value update")
+                sets = [(x, tg) for x, tg in evs if x.kind == "setattr" and tg == CUR and x.name == "ext_x"]
+                xs = [(x, tg) for x, tg in evs if x.kind == "store" and (tg == EXTX or (tg[0] == "new" and content_root(tg) == MEXTX))
+                      and P.norm(x.index)[0] == "tup" and len(P.norm(x.index)) == 3 and P.norm(x.index)[1] == J]
+                for x, tg in sets:
+                    xv = P.norm(x.value)
+                    ok = nox is False and cur_x is True and content_root(xv) == MEXTX
+                    A.req(f"extrema [{arm}]: an abscissa table is created on a later case only when there was none, from the incoming one", ok, x.node, show(xv))
+                    er, _, cert = ext_roots(P, x.value)
+                    A.req(f"extrema [{arm}]: an abscissa table created on a later case is a copy of mm.ext_x, not the contributor's array", not er, x.node,
+                          sorted(show(r) for r in er))
+                if not xs:
+                    need = (nox is False and not (cur_x is True and sets)) or (nox is True and cur_x is False)
+                    A.req(key, not need, e.node, "no update of curext.ext_x at the replaced rows")
                 else:
-                    x, tg = xa[0]
-                    if x.kind == "setattr":
-                        xv = P.norm(x.value)
-                        ok = nox is False and (cur_x is True) and content_root(xv) == MEXTX
-                        A.req(key, ok, x.node, show(xv))
-                        er, _, cert = ext_roots(P, x.value)
-                        A.req(f"extrema [{arm}]: an abscissa table created on a later case is a copy of mm.ext_x, not the contributor's array", not er, x.node,
-                              sorted(show(r) for r in er))
+                    x, tg = xs[0]
+                    xi, xv = P.norm(x.index), P.norm(x.value)
+                    ok = xi == ("tup", J, ("c", role)) and len(xs) == 1
+                    if nox is True:
+                        ok = ok and is_nan(xv)
                     else:
-                        xi, xv = P.norm(x.index), P.norm(x.value)
-                        ok = xi == ("tup", J, ("c", role))
-                        if nox is True:
-                            ok = ok and is_nan(xv)
-                        else:
-                            ok = ok and xv == ("idx", MEXTX, ("tup", J, ("c", want_b)))
-                        A.req(key, ok, x.node, {"index": show(xi), "value": show(xv)})
+                        ok = ok and xv == ("idx", MEXTX, ("tup", J, ("c", want_b)))
+                    A.req(key, ok, x.node, {"index": show(xi), "value": show(xv)})
             if len(groups) == 2:
                 A.req(f"extrema [{arm}]: one block updates the max column, the other the min column", seen_roles == {0, 1}, fn, sorted(seen_roles))
         A.req(f"extrema [{arm}]: rule bound to first-case paths and to later-case paths", nfirst > 0 and nupd > 0, fn, {"first": nfirst, "later": nupd},
@@ -293,13 +291,28 @@ def _first_case(A, P, arm, ncol, fn, CUR, MM, mxc, mnc, nox, nomin):
     v = {k: P.norm(e.value) for k, e in vals.items()}
     if ncol == 1:
         dup = ("lst", ("lst", ("c", 1), ("c", 1)))
-        ok = v["ext"] == ("op", "matmul", MEXT, dup)
+
+        def doubled(t, src):
+            if t in (("op", "matmul", src, dup), ("op", "matmul", src, ("tup", ("tup", ("c", 1), ("c", 1))))):
+                return True
+            if t[0] == "new":
+                t = t[2]
+            col = (src, ("idx", src, ("tup", FULL, ("c", 0))))
+            if t[0] == "call" and t[1] in ("np.hstack", "np.column_stack") and len(t[2]) == 1 and t[2][0][0] in ("tup", "lst") and len(t[2][0]) == 3:
+                return t[2][0][1] in col and t[2][0][2] in col
+            if t[0] == "call" and t[1] in ("np.repeat",) and t[2][:2] == (src, ("c", 2)) and (t[2][2:] == (("c", 1),) or t[3] == (("axis", ("c", 1)),)):
+                return True
+            if t[0] == "call" and t[1] == "np.tile" and t[2] == (src, ("tup", ("c", 1), ("c", 2))):
+                return True
+            return False
+
+        ok = doubled(v["ext"], MEXT)
         A.req("extrema [one-column]: the first case fills both columns of the running extrema with the single incoming column",
               ok if ok or content_root(v["ext"]) != MEXT else None, vals["ext"].node, show(v["ext"]))
         if nox is True:
             ok = v["ext_x"] == NONE
         else:
-            ok = v["ext_x"] == ("op", "matmul", MEXTX, dup)
+            ok = doubled(v["ext_x"], MEXTX)
             if not ok and content_root(v["ext_x"]) == MEXTX and v["ext_x"] != MEXTX:
                 ok = None
         A.req("extrema [one-column]: the first case fills both abscissa columns from the single incoming abscissa column (None when there is none)", ok,
